@@ -24,7 +24,10 @@ fn quote_cell(s: &str, force: bool) -> String {
 fn gen_rows(rng: &mut Rng) -> Vec<SrcRow> {
     let surf = ["東京", "a", "a,b", "q\"t", " ", "x y", "", "京都", "a", "東", "\"", "1,2,\"3\"", "é", "😀", "ab"];
     let cells = ["名詞", "f", "", "*", "a b", "x,y", "i\"j", " ", "終", "l1\nl2"];
-    let n = 1 + rng.below(6) as usize;
+    // 1 case in 20: one surface with 255..600 homographs (posting lists longer than one byte can count)
+    let many = rng.chance(1, 20);
+    let n = if many { *rng.pick(&[255usize, 256, 257, 300, 512, 600]) } else { 1 + rng.below(6) as usize };
+    let many_surface = *rng.pick(&["東京", "a", "ab"]);
     (0..n)
         .map(|_| {
             let nf = rng.below(5) as usize;
@@ -36,7 +39,7 @@ fn gen_rows(rng: &mut Rng) -> Vec<SrcRow> {
                 .collect::<Vec<_>>()
                 .join(",");
             SrcRow {
-                surface: rng.pick(&surf[..]).to_string(),
+                surface: if many && !rng.chance(1, 40) { many_surface.to_string() } else { rng.pick(&surf[..]).to_string() },
                 lid: *rng.pick(&[0u16, 1, 7, 65535, 12]),
                 rid: *rng.pick(&[0u16, 2, 9, 65535]),
                 cost: *rng.pick(&[0i16, -1, 5, 32767, -32768, 120, -3000]),
@@ -117,12 +120,40 @@ pub fn run(seed: u64, n: usize, outdir: &str, _corpus: Option<&str>) -> std::io:
             Outcome::Panic => "Panic".to_string(),
         };
         let stored_t = if do_build { format!("(Some {})", stored_t) } else { "None".to_string() };
+        // homographs as the tokenizer finds them: every distinct surface tokenized as a sentence; the
+        // system-lexicon nodes spanning the whole sentence, in lattice order, are its homographs
+        let mut homs: Vec<(String, Vec<u64>)> = vec![];
+        if let Outcome::Ok(d) = stored {
+            let mut seen: Vec<String> = vec![];
+            for r in rows.iter().filter(|r| !r.surface.is_empty()) {
+                if seen.contains(&r.surface) { continue; }
+                seen.push(r.surface.clone());
+            }
+            let tok = vibrato::Tokenizer::new(d);
+            for sf in seen {
+                let t = &tok;
+                let sf2 = sf.clone();
+                let ids = guarded_plain(std::panic::AssertUnwindSafe(move || {
+                    let mut w = t.new_worker();
+                    w.reset_sentence(&sf2);
+                    w.tokenize();
+                    let (ends, _, _) = w.verif_lattice_dump();
+                    let n = sf2.chars().count();
+                    ends.get(n).map(|v| v.iter().filter(|x| x[1] == 0 && x[2] == 0).map(|x| x[3] as u64).collect::<Vec<u64>>()).unwrap_or_default()
+                }));
+                match ids {
+                    Outcome::Ok(v) => homs.push((sf, v)),
+                    _ => homs.push((sf, vec![4294967295])),
+                }
+            }
+        }
         let term = format!(
-            "(Build_c11case {} {} {} {} {})",
+            "(Build_c11case {} {} {} {} {} {})",
             cbool(wellformed), cbytes(text.as_bytes()),
             clist(&rows, |r| crow(&r.surface, r.lid, r.rid, r.cost, &r.feature_raw)),
             cres(&parsed, |v| clist(v, |(s, l, r, c, f)| crow(s, *l, *r, *c, f))),
-            stored_t
+            stored_t,
+            clist(&homs, |(s, v)| format!("({}, {})", cbytes(s.as_bytes()), clist(v, |x| format!("{}", x))))
         );
         let human = format!("wellformed={} csv={}", wellformed, json_str(&text));
         if sh.push_h(format!("seed:{}", sub), term, human.clone()) && samples.len() < 3 {
